@@ -249,7 +249,10 @@ func c16DNSAnswer(raw []byte) []byte {
 			reply.Rcode = dns.RcodeNameError
 		case srv.Kind == "servfail":
 			reply.Rcode = dns.RcodeServerFailure
-		case srv.Kind == "records":
+		case srv.Kind == "records" || srv.Kind == "mixed":
+			if srv.Kind == "mixed" {
+				reply.Answer = append(reply.Answer, &dns.SRV{Hdr: hdr(dns.TypeSRV), Priority: 5, Weight: 1, Port: 8001, Target: "bad*host.example.net."})
+			}
 			for _, r := range srv.Recs {
 				reply.Answer = append(reply.Answer, &dns.SRV{Hdr: hdr(dns.TypeSRV), Priority: uint16(r.Prio),
 					Weight: uint16(r.Weight), Port: uint16(r.Port), Target: dns.Fqdn(r.Target)})
